@@ -163,6 +163,16 @@ func (vc *VC) mapComp(mt *types.Map) string {
 	return name
 }
 
+// mapLenComp: ghost cardinality of every map object.
+func (vc *VC) mapLenComp() string {
+	vc.comp("$maplen", "(Array Int Int)")
+	return "$maplen"
+}
+
+func (vc *VC) emptyMap(mt *types.Map) string {
+	return fmt.Sprintf("((as const (Array %s %s)) none_%s)", vc.sortOf(mt.Key()), vc.optSort(mt.Elem()), typeKey(mt.Elem()))
+}
+
 func (fr *Frame) mapOf(v ssa.Value, st *State) (string, *types.Map) {
 	mt := v.Type().Underlying().(*types.Map)
 	comp := fr.vc.mapComp(mt)
@@ -174,8 +184,10 @@ func (fr *Frame) execMakeMap(ins *ssa.MakeMap, st *State) {
 	mt := ins.Type().Underlying().(*types.Map)
 	comp := vc.mapComp(mt)
 	r := vc.newRef(st, fr.curReach)
-	empty := fmt.Sprintf("((as const (Array %s %s)) none_%s)", vc.sortOf(mt.Key()), vc.optSort(mt.Elem()), typeKey(mt.Elem()))
+	empty := vc.emptyMap(mt)
 	vc.set(st, comp, fmt.Sprintf("(store %s %s %s)", vc.get(st, comp), r, empty))
+	lc := vc.mapLenComp()
+	vc.set(st, lc, fmt.Sprintf("(store %s %s 0)", vc.get(st, lc), r))
 	fr.vals[ins] = Term{r, "Int", ins.Type()}
 }
 func (fr *Frame) execMakeChan(ins *ssa.MakeChan, st *State) {
@@ -227,6 +239,10 @@ func (fr *Frame) execMapUpdate(ins *ssa.MapUpdate, st *State) {
 	comp := vc.mapComp(mt)
 	k := fr.val(ins.Key)
 	v := fr.val(ins.Value)
+	fr.atMapUpdateAsserts(ins, k, v, st)
+	lc := vc.mapLenComp()
+	mh := fr.val(ins.Map).S
+	vc.set(st, lc, fmt.Sprintf("(store %s %s (+ (select %s %s) (ite ((_ is some_%s) (select %s %s)) 0 1)))", vc.get(st, lc), mh, vc.get(st, lc), mh, typeKey(mt.Elem()), m, k.S))
 	vc.set(st, comp, fmt.Sprintf("(store %s %s (store %s %s (some_%s %s)))", vc.get(st, comp), fr.val(ins.Map).S, m, k.S, typeKey(mt.Elem()), v.S))
 }
 func (fr *Frame) execMapDelete(ins *ssa.Call, st *State) {
@@ -236,6 +252,9 @@ func (fr *Frame) execMapDelete(ins *ssa.Call, st *State) {
 	fr.checkMapGuard(args[0], true, ins.Pos(), st)
 	comp := vc.mapComp(mt)
 	k := fr.val(args[1])
+	lc := vc.mapLenComp()
+	mh := fr.val(args[0]).S
+	vc.set(st, lc, fmt.Sprintf("(store %s %s (- (select %s %s) (ite ((_ is some_%s) (select %s %s)) 1 0)))", vc.get(st, lc), mh, vc.get(st, lc), mh, typeKey(mt.Elem()), m, k.S))
 	vc.set(st, comp, fmt.Sprintf("(store %s %s (store %s %s none_%s))", vc.get(st, comp), fr.val(args[0]).S, m, k.S, typeKey(mt.Elem())))
 	fr.vals[ins] = Term{"unit", "Unit", ins.Type()}
 }
@@ -417,15 +436,19 @@ func (fr *Frame) execSelect(ins *ssa.Select, st *State) {
 	fr.vals[ins] = Term{"tuple", "tuple", ins.Type()}
 }
 func (fr *Frame) execClose(ins *ssa.Call, st *State) {
+	fr.closeChan(ins.Call.Args[0], st, ins.Pos())
+	fr.vals[ins] = Term{"unit", "Unit", ins.Type()}
+}
+
+func (fr *Frame) closeChan(arg ssa.Value, st *State, pos token.Pos) {
 	vc := fr.vc
-	c := fr.val(ins.Call.Args[0])
-	ct := ins.Call.Args[0].Type().Underlying().(*types.Chan)
+	c := fr.val(arg)
+	ct := arg.Type().Underlying().(*types.Chan)
 	vc.chelemFn(ct.Elem())
 	vc.comp("$chclosed", "(Array Int Bool)")
-	vc.oblige("chan", fr.autoTags(), fr.curReach, fmt.Sprintf("(and (not (= %s 0)) (not (select %s %s)))", c.S, vc.get(st, "$chclosed"), c.S), "close of a nil or already closed channel panics", ins.Pos(), nil)
+	vc.oblige("chan", fr.autoTags(), fr.curReach, fmt.Sprintf("(and (not (= %s 0)) (not (select %s %s)))", c.S, vc.get(st, "$chclosed"), c.S), "close of a nil or already closed channel panics", pos, nil)
 	vc.set(st, "$chclosed", fmt.Sprintf("(store %s %s true)", vc.get(st, "$chclosed"), c.S))
 	vc.assumeIf(fr.curReach, fmt.Sprintf("(= (chlen %s) (select %s %s))", c.S, vc.get(st, vc.chsentComp()), c.S))
-	fr.vals[ins] = Term{"unit", "Unit", ins.Type()}
 }
 func (fr *Frame) execRange(ins *ssa.Range, st *State) {
 	fr.vc.unsupportedf("range over map/string at %s", fr.vc.posOf(ins.Pos()))
@@ -1090,4 +1113,34 @@ func init() {
 		fr.vc.storeL(lv, fr.val(cc.Args[1]).S, st)
 		return nil
 	}, modifies: func(fr *Frame, cc *ssa.CallCommon) []string { return fr.compsOfAddr(cc.Args[0]) }, doc: "atomic.Value.Store"}
+}
+
+// atMapUpdateAsserts checks `at mapupdate <mapvar>: assert e` clauses; $key / $val are the key and value
+// being stored, the map is in its state before the update.
+func (fr *Frame) atMapUpdateAsserts(ins *ssa.MapUpdate, k, v Term, st *State) {
+	if fr.spec == nil || !fr.isTop {
+		return
+	}
+	vc := fr.vc
+	for _, at := range fr.spec.Ats {
+		if !strings.HasPrefix(at.Callee, "mapupdate:") {
+			continue
+		}
+		name := strings.TrimPrefix(at.Callee, "mapupdate:")
+		ctx := fr.specCtx(st, fr.entry, fr.curBlock, fr.curIdx)
+		mt, err := ctx.eval(&EIdent{name})
+		if err != nil || mt.S != fr.val(ins.Map).S {
+			continue
+		}
+		k.T = ins.Key.Type()
+		v.T = ins.Value.Type()
+		ctx.env["$key"] = k
+		ctx.env["$val"] = v
+		g, err := ctx.evalBool(at.Clause.E)
+		if err != nil {
+			vc.unsupportedf("at mapupdate %s: %v", name, err)
+			continue
+		}
+		vc.oblige("assert", fr.tagsFor(at.Clause.Tags), fr.curReach, g, fmt.Sprintf("at update of map %s: %s", name, at.Clause.Text), ins.Pos(), at.Clause)
+	}
 }
